@@ -45,6 +45,188 @@ theorem coord_columns_documented :
 /-- an N×4 dimensions table is read as tomo_id, x, y, z -/
 theorem dim_columns_documented : Gen.C09.dimColumns = ["tomo_id", "x", "y", "z"] := by decide
 
+
+/-- `cryomap.binarize`: a mask voxel is non-zero iff `value > 0.5` -/
+theorem binarize_documented : Gen.C09.binarizeCfg = binarizeCfgDoc := by decide
+
+/-! ### signature defaults the statement depends on (the harness omits these keywords in a share of its calls) -/
+
+/-- `remove_out_of_bounds_particles(dimensions, boundary_type="center", box_size=None)` -/
+theorem oob_defaults_documented :
+    Gen.C09.oobDefaults = [("boundary_type", "'center'"), ("box_size", "None")] := by decide
+
+/-- `clean_by_distance_to_points(points, radius_in_voxels, feature_id="tomo_id", inplace=True, output_file=None)`:
+grouping is by tomogram and the list itself is cleaned unless asked otherwise -/
+theorem points_defaults_documented :
+    Gen.C09.pointsDefaults = [("feature_id", "'tomo_id'"), ("inplace", "True"), ("output_file", "None")] := by decide
+
+/-- `clean_by_tomo_mask(tomo_list, tomo_masks, inplace=True, output_file=None)` -/
+theorem mask_defaults_documented :
+    Gen.C09.maskDefaults = [("inplace", "True"), ("output_file", "None")] := by decide
+
+theorem binarize_defaults_documented : Gen.C09.binarizeDefaults = [("threshold", "0.5")] := by decide
+
+theorem dims_load_defaults_documented : Gen.C09.dimsLoadDefaults = [("tomo_idx", "None")] := by decide
+
+/-! ### body skeletons: everything of the anchored functions that is not one of the operators above. Locals are renamed
+`v1, v2, …` in order of first binding (a renamed local changes nothing here), the docstring is dropped, the extracted
+operators/constants appear as named holes. An added, removed, reordered or edited statement breaks the `rfl`. -/
+
+/-- `remove_out_of_bounds_particles`: dimensions through `ioutils.dimensions_load`, refusals, complete positions, per row the
+FIRST dimension row of the row's own tomogram, `c ∓ boundary` on `x..z`, one conjunction of the lower test and three upper tests
+(axis i against column x/y/z), survivors by `iloc` in order -/
+theorem oob_skeleton_documented : Gen.C09.oobSkeleton = [
+  "def(self, dimensions, boundary_type='center', box_size=None)",
+  "v1 = ioutils.dimensions_load(dimensions)",
+  "v2 = len(self.df)",
+  "if boundary_type == 'whole':",
+  "    if box_size:",
+  "        v3 = HALF_BOX(box_size)",
+  "    else:",
+  "        raise UserInputError(\"You need to specify box_size when boundary_type is set to 'whole'.\")",
+  "elif boundary_type == 'center':",
+  "    v3 = 0",
+  "else:",
+  "    raise UserInputError(f'Unknown type of boundaries: {boundary_type}')",
+  "v4 = self.get_coordinates()",
+  "v5 = pd.DataFrame({'x': v4[:, 0], 'y': v4[:, 1], 'z': v4[:, 2], 'tomo_id': self.df['tomo_id'].values})",
+  "v6 = []",
+  "for v7, v8 in v5.iterrows():",
+  "    v9 = v8['tomo_id']",
+  "    v10 = v1.loc[v1['tomo_id'] == v9, 'x':'z'].reset_index(drop=True)",
+  "    v11 = [v12 - v3 for v12 in v8['x':'z']]",
+  "    v13 = [v12 + v3 for v12 in v8['x':'z']]",
+  "    if LOWER_FACES_OK(v11) and CMP_UPPER(v13[0], v10['x'][0]) and CMP_UPPER(v13[1], v10['y'][0]) and CMP_UPPER(v13[2], v10['z'][0]):",
+  "        v6.append(v7)",
+  "self.df = self.df.iloc[v6].reset_index(drop=True)",
+  "print(f'Removed {v2 - len(self.df)} particles.')",
+  "print(f'Original size {v2}, new_size {len(self.df)}')"] := rfl
+
+/-- `adapt_to_trimming`: `start - OFFSET` is a NEW array (the caller's array is not touched), `tdim = end - that`, x,y,z shifted for
+every row, then the two negated any-axis filters -/
+theorem trim_skeleton_documented : Gen.C09.trimSkeleton = [
+  "def(self, trim_coord_start, trim_coord_end)",
+  "v1 = np.asarray(trim_coord_start) - OFFSET",
+  "v2 = np.asarray(trim_coord_end) - v1",
+  "self.df.loc[:, ['x', 'y', 'z']] = self.df.loc[:, ['x', 'y', 'z']] - np.tile(v1, (self.df.shape[0], 1))",
+  "self.df = self.df.loc[~(CMP_LOW(self.df['x'], LOW_BOUND) | CMP_LOW(self.df['y'], LOW_BOUND) | CMP_LOW(self.df['z'], LOW_BOUND)), :]",
+  "self.df = self.df.loc[~(CMP_HIGH(self.df['x'], v2[0]) | CMP_HIGH(self.df['y'], v2[1]) | CMP_HIGH(self.df['z'], v2[2])), :]"] := rfl
+
+/-- `clean_by_tomo_mask`: list-length check, binarisation, per listed tomogram the subset of the ORIGINAL list, truncated complete
+positions, the bounds mask applied to coordinates AND ids alike, voxel lookup `[x, y, z]`, rows dropped from the copy -/
+theorem mask_skeleton_documented : Gen.C09.maskSkeleton = [
+  "def(self, tomo_list, tomo_masks, inplace=True, output_file=None)",
+  "v1 = ioutils.tlt_load(tomo_list)",
+  "v2 = True",
+  "if isinstance(tomo_masks, list):",
+  "    if len(v1) != len(tomo_masks):",
+  "        raise ValueError(f'The list of tomograms has different length than lists of tomogram masks')",
+  "else:",
+  "    v3 = cryomap.binarize(tomo_masks)",
+  "    v2 = False",
+  "v4 = Motl.load(self)",
+  "for v5, v6 in enumerate(v1):",
+  "    v7 = self.get_motl_subset(v6, reset_index=True)",
+  "    v8 = v7.get_coordinates().astype(int)",
+  "    if v2:",
+  "        v3 = cryomap.binarize(tomo_masks[v5])",
+  "    v9 = np.all(CMP_IDX_LOW(v8, 0), axis=1) & CMP_IDX_HIGH(v8[:, 0], v3.shape[0]) & CMP_IDX_HIGH(v8[:, 1], v3.shape[1]) & CMP_IDX_HIGH(v8[:, 2], v3.shape[2])",
+  "    v8 = v8[v9]",
+  "    v10 = v7.df['subtomo_id'].values[v9]",
+  "    v11 = v3[v8[:, 0], v8[:, 1], v8[:, 2]]",
+  "    v12 = np.where(CMP_VOXEL(v11, 0))[0]",
+  "    v13 = v10[v12]",
+  "    DROP_ROWS(v4, v6, v13)",
+  "    print(f'Removed {str(v12.shape[0])} particles from tomogram #{str(v6)}')",
+  "v4.df.reset_index(inplace=True, drop=True)",
+  "if output_file is not None:",
+  "    v4.write_out(output_file)",
+  "if inplace:",
+  "    self.df = v4.df",
+  "else:",
+  "    return v4"] := rfl
+
+/-- `clean_by_distance_to_points`: per value of `feature_id` a KD-tree of the particles' complete positions, one closed-ball query
+per reference point of that tomogram with `r = radius_in_voxels`, hit rows dropped by position, groups concatenated -/
+theorem points_skeleton_documented : Gen.C09.pointsSkeleton = [
+  "def(self, points, radius_in_voxels, feature_id='tomo_id', inplace=True, output_file=None)",
+  "v1 = self.get_unique_values(feature_id)",
+  "v2 = pd.DataFrame()",
+  "for v3 in v1:",
+  "    v4 = self.get_motl_subset(v3, feature_id=feature_id, reset_index=True)",
+  "    v5 = v4.get_coordinates()",
+  "    v6 = points.loc[points[feature_id] == v3, ['x', 'y', 'z']].values",
+  "    v7 = KDTree(v5)",
+  "    v8 = set()",
+  "    for v9 in v6:",
+  "        v10 = v7.query_ball_point(v9, r=radius_in_voxels)",
+  "        v8.update(v10)",
+  "    v8 = sorted(v8)",
+  "    v11 = v4.df.drop(index=v8)",
+  "    v2 = pd.concat([v2, v11], ignore_index=True)",
+  "v2.reset_index(drop=True, inplace=True)",
+  "v12 = Motl(v2)",
+  "if output_file:",
+  "    v12.write_out(output_file)",
+  "print(f'{self.df.shape[0] - v12.df.shape[0]} particles were removed.')",
+  "if inplace:",
+  "    self.df = v2",
+  "else:",
+  "    return v12"] := rfl
+
+/-- `get_coordinates`: `x,y,z + shift_x,shift_y,shift_z` -/
+theorem coords_skeleton_documented : Gen.C09.coordsSkeleton = [
+  "def(self, tomo_number=None)",
+  "if tomo_number is None:",
+  "    v1 = self.df.loc[:, ['x', 'y', 'z']].values + self.df.loc[:, ['shift_x', 'shift_y', 'shift_z']].values",
+  "else:",
+  "    v1 = self.df.loc[self.df.loc[:, 'tomo_id'] == tomo_number, ['x', 'y', 'z']].values + self.df.loc[self.df.loc[:, 'tomo_id'] == tomo_number, ['shift_x', 'shift_y', 'shift_z']].values",
+  "return v1"] := rfl
+
+/-- `ioutils.dimensions_load`: DataFrame as is, `.com` file, text file (`\\s+` separated, no header, float), list, ndarray (1-D
+reshaped to one row); 1×3 → x,y,z, N×4 → tomo_id,x,y,z, anything else refused -/
+theorem dims_load_skeleton_documented : Gen.C09.dimsLoadSkeleton = [
+  "def(input_dims, tomo_idx=None)",
+  "if isinstance(input_dims, pd.DataFrame):",
+  "    v1 = input_dims",
+  "elif isinstance(input_dims, str):",
+  "    if input_dims.endswith('.com'):",
+  "        v2 = imod_com_read(input_dims)",
+  "        v1 = np.zeros((1, 3))",
+  "        v1[0, 0:2] = v2['FULLIMAGE']",
+  "        v1[0, 2] = v2['THICKNESS'][0]",
+  "        v1 = pd.DataFrame(v1)",
+  "    elif os.path.isfile(input_dims):",
+  "        v1 = pd.read_csv(input_dims, sep='\\\\s+', header=None, dtype=float)",
+  "    else:",
+  "        raise ValueError(f'The file at the path {input_dims} does not exist.')",
+  "elif isinstance(input_dims, list):",
+  "    v1 = pd.DataFrame(np.reshape(np.asarray(input_dims), (1, len(input_dims))))",
+  "else:",
+  "    if input_dims.ndim == 1:",
+  "        input_dims = np.reshape(input_dims, (1, input_dims.shape[0]))",
+  "    v1 = pd.DataFrame(input_dims)",
+  "if v1.shape == (1, 3):",
+  "    v1.columns = ['x', 'y', 'z']",
+  "elif v1.shape[1] == 4:",
+  "    v1.columns = ['tomo_id', 'x', 'y', 'z']",
+  "else:",
+  "    raise ValueError(f'The dimensions should have shape of 1x3 or Nx4, where N is number of tomograms.Instead following shape was extracted from the prvoided files: {v1.shape}.')",
+  "if tomo_idx is not None:",
+  "    v3 = tlt_load(tomo_idx).astype(int)",
+  "    if 'tomo_id' not in v1.columns:",
+  "        v4 = np.repeat(v1[['x', 'y', 'z']].values, len(v3), axis=0)",
+  "        v1 = pd.DataFrame(v4, columns=['x', 'y', 'z'])",
+  "        v1['tomo_id'] = v3",
+  "return v1"] := rfl
+
+/-- `cryomap.binarize`: `read`, one comparison with the threshold, 0/1 integers -/
+theorem binarize_skeleton_documented : Gen.C09.binarizeSkeleton = [
+  "def(input_map, threshold=0.5)",
+  "input_map = read(input_map)",
+  "v1 = CMP_BIN(input_map, threshold).astype(int)",
+  "return v1"] := rfl
+
 section generic
 variable {α : Type} [Add α] [Sub α] [Mul α] [LT α] [LE α] [DecidableLT α] [DecidableLE α] [DecidableEq α]
   [NatCast α] [OfNat α 0]
@@ -471,15 +653,25 @@ theorem maskHit_doc_iff (tr : α → Int) (m : Mask) (p : Particle α) :
   cases m.val (voxel tr p).x.toNat (voxel tr p).y.toNat (voxel tr p).z.toNat <;>
     simp [maskCfgDoc, Cmp.eval, and_assoc]
 
+/-- the ids collected for one listed tomogram: those of its particles inside the volume on a zero voxel -/
+theorem mem_maskIdsOf (tr : α → Int) (l : Motl α) (tmk : α × Mask) (i : α) :
+    i ∈ maskIdsOf maskCfgDoc tr l tmk ↔ ∃ p ∈ l, p.subtomo_id = i ∧ p.tomo_id = tmk.1 ∧ InsideMask tmk.2 (voxel tr p) ∧
+      tmk.2.val (voxel tr p).x.toNat (voxel tr p).y.toNat (voxel tr p).z.toNat = false := by
+  unfold maskIdsOf
+  simp only [List.mem_map, List.mem_filter, decide_eq_true_eq, maskHit_doc_iff]
+  constructor
+  · rintro ⟨p, ⟨⟨hp, ht⟩, hh⟩, rfl⟩; exact ⟨p, hp, rfl, ht, hh⟩
+  · rintro ⟨p, hp, rfl, ht, hh⟩; exact ⟨p, ⟨⟨hp, ht⟩, hh⟩, rfl⟩
+
 theorem mem_maskRemoveIds (tr : α → Int) (tm : List (α × Mask)) (l : Motl α) (i : α) :
     i ∈ maskRemoveIds maskCfgDoc tr tm l ↔ ∃ p ∈ l, p.subtomo_id = i ∧ OnZeroVoxel tr tm p := by
   unfold maskRemoveIds OnZeroVoxel
-  simp only [List.mem_flatMap, List.mem_map, List.mem_filter, decide_eq_true_eq, maskHit_doc_iff]
+  simp only [List.mem_flatMap, mem_maskIdsOf]
   constructor
-  · rintro ⟨tmk, htm, p, ⟨⟨hp, ht⟩, hh⟩, rfl⟩
+  · rintro ⟨tmk, htm, p, hp, rfl, ht, hh⟩
     exact ⟨p, hp, rfl, tmk, htm, ht, hh⟩
   · rintro ⟨p, hp, rfl, tmk, htm, ht, hh⟩
-    exact ⟨tmk, htm, p, ⟨⟨hp, ht⟩, hh⟩, rfl⟩
+    exact ⟨tmk, htm, p, hp, rfl, ht, hh⟩
 
 /-- how the listed tomograms are paired with masks -/
 theorem pairMasks_ok (tomos : List α) (arg : MaskArg) (tm : List (α × Mask)) (h : pairMasks tomos arg = .ok tm) :
@@ -494,18 +686,182 @@ theorem pairMasks_ok (tomos : List α) (arg : MaskArg) (tm : List (α × Mask)) 
     · rename_i hl; injection h with h; exact ⟨ms, rfl, hl, h.symm⟩
     · simp at h
 
-/-- **Cleaning by a tomogram mask removes exactly the particles inside the mask volume that sit on
-zero voxels and keeps all others** — for every list whose subtomo ids are not repeated (the code
-removes BY subtomo id; `cleanMask_needs_unique_ids` shows the hypothesis cannot be dropped), every
-tomogram list, every mask shape and content, and any truncation `tr`. -/
-theorem cleanMask_spec (tr : α → Int) (tomos : List α) (arg : MaskArg) (l out : Motl α)
-    (hid : (l.map (·.subtomo_id)).Nodup) (h : cleanMask tr tomos arg l = .ok out) :
+/-! ### the executable statement (`cleanMaskStmt`, the driver's `spec`) IS the statement -/
+
+theorem insideMask_iff (m : Mask) (v : V3 Int) : insideMask m v = true ↔ InsideMask m v := by
+  simp [insideMask, InsideMask, and_assoc]
+
+theorem onZeroVoxel_iff (tr : α → Int) (tm : List (α × Mask)) (p : Particle α) :
+    onZeroVoxel tr tm p = true ↔ OnZeroVoxel tr tm p := by
+  unfold onZeroVoxel OnZeroVoxel
+  simp only [List.any_eq_true, Bool.and_eq_true, decide_eq_true_eq, insideMask_iff, Bool.not_eq_true']
+
+/-- **The driver's `spec` for the mask filter is the statement itself**, for EVERY list (no hypothesis on
+ids): whenever the call is not refused, `cleanMaskStmt` keeps exactly the particles that are not on a zero
+voxel of a mask listed for their own tomogram — order, multiplicities, every survivor an unaltered row. -/
+theorem cleanMaskStmt_spec (tr : α → Int) (tomos : List α) (arg : MaskArg) (l out : Motl α)
+    (h : cleanMaskStmt tr tomos arg l = .ok out) :
     ∃ tm, pairMasks tomos arg = .ok tm ∧ KeepsExactly (fun p => ¬ OnZeroVoxel tr tm p) l out := by
-  unfold cleanMask cleanMaskWith at h
+  unfold cleanMaskStmt at h
   cases hp : pairMasks tomos arg with
   | error e => rw [hp] at h; simp at h
   | ok tm =>
     rw [hp] at h
+    injection h with h
+    refine ⟨tm, rfl, _, h.symm, fun p _ => ?_⟩
+    show (!onZeroVoxel tr tm p) = true ↔ ¬ OnZeroVoxel tr tm p
+    rw [← onZeroVoxel_iff]; simp
+
+/-! ### the code: a loop over the listed tomograms, rows dropped by (tomogram, subtomo id) -/
+
+/-- a row is dropped in the iteration of the listed tomogram `tmk` iff it belongs to that tomogram and
+some row of that tomogram with the same subtomo id sits on a zero voxel of its mask -/
+theorem maskDrops_doc_iff (tr : α → Int) (l : Motl α) (tmk : α × Mask) (p : Particle α) :
+    maskDrops maskCfgDoc tr l tmk p = true ↔
+      p.tomo_id = tmk.1 ∧ ∃ p' ∈ l, p'.subtomo_id = p.subtomo_id ∧ p'.tomo_id = tmk.1 ∧ InsideMask tmk.2 (voxel tr p') ∧
+        tmk.2.val (voxel tr p').x.toNat (voxel tr p').y.toNat (voxel tr p').z.toNat = false := by
+  show (decide (p.tomo_id = tmk.1) && (maskIdsOf maskCfgDoc tr l tmk).contains p.subtomo_id) = true ↔ _
+  simp only [Bool.and_eq_true, decide_eq_true_eq, List.contains_iff_mem, mem_maskIdsOf]
+
+/-- the loop is one filter -/
+theorem cleanMaskWith_eq_filter (cfg : MaskCfg) (tr : α → Int) (tomos : List α) (arg : MaskArg) (l : Motl α)
+    (tm : List (α × Mask)) (hp : pairMasks tomos arg = .ok tm) :
+    cleanMaskWith cfg tr tomos arg l = .ok (l.filter (fun p => tm.all (fun tmk => !maskDrops cfg tr l tmk p))) := by
+  unfold cleanMaskWith
+  rw [hp]
+  have hstep : maskStep cfg tr l = fun acc tmk => acc.filter (fun p => !maskDrops cfg tr l tmk p) := rfl
+  simp only [hstep, foldl_filter_eq]
+
+/-- survives the whole loop iff no row OF THE SAME TOMOGRAM with the same subtomo id sits on a zero voxel -/
+theorem maskKeep_doc_iff (tr : α → Int) (tm : List (α × Mask)) (l : Motl α) (p : Particle α) :
+    tm.all (fun tmk => !maskDrops maskCfgDoc tr l tmk p) = true ↔
+      ¬ ∃ p' ∈ l, p'.tomo_id = p.tomo_id ∧ p'.subtomo_id = p.subtomo_id ∧ OnZeroVoxel tr tm p' := by
+  simp only [List.all_eq_true, Bool.not_eq_true', ← Bool.not_eq_true, maskDrops_doc_iff, OnZeroVoxel]
+  constructor
+  · rintro h ⟨p', hp', ht, hi, tmk, htm, ht', hin, hv⟩
+    exact h tmk htm ⟨ht ▸ ht', p', hp', hi, ht', hin, hv⟩
+  · rintro h tmk htm ⟨ht, p', hp', hi, ht', hin, hv⟩
+    exact h ⟨p', hp', ht'.trans ht.symm, hi, tmk, htm, ht', hin, hv⟩
+
+/-- **What the code computes, for every list** (no hypothesis): a row survives iff no row of the same
+tomogram carrying the same subtomo id sits on a zero voxel. A row of ANOTHER tomogram with the same id
+does not matter any more (it did up to commit 0eff65b: `cleanMaskById_mem_iff`). -/
+theorem cleanMask_mem_iff (tr : α → Int) (tomos : List α) (arg : MaskArg) (l out : Motl α)
+    (h : cleanMask tr tomos arg l = .ok out) (p : Particle α) :
+    ∃ tm, pairMasks tomos arg = .ok tm ∧
+      (p ∈ out ↔ p ∈ l ∧ ¬ ∃ p' ∈ l, p'.tomo_id = p.tomo_id ∧ p'.subtomo_id = p.subtomo_id ∧ OnZeroVoxel tr tm p') := by
+  cases hp : pairMasks tomos arg with
+  | error e => unfold cleanMask cleanMaskWith at h; rw [hp] at h; simp at h
+  | ok tm =>
+    unfold cleanMask at h
+    rw [cleanMaskWith_eq_filter _ tr tomos arg l tm hp] at h
+    injection h with h
+    refine ⟨tm, rfl, ?_⟩
+    rw [← h, List.mem_filter, maskKeep_doc_iff]
+
+/-- **Exactly what the mask filter needs of the list**: two rows of one tomogram that carry the same
+subtomo id are either both on a zero voxel or both not (then removing "by id within the tomogram" removes
+the right rows). Nothing is asked across tomograms. -/
+def MaskWellFormed (tr : α → Int) (tm : List (α × Mask)) (l : Motl α) : Prop :=
+  ∀ p ∈ l, ∀ p' ∈ l, p'.tomo_id = p.tomo_id → p'.subtomo_id = p.subtomo_id → OnZeroVoxel tr tm p' → OnZeroVoxel tr tm p
+
+/-- the usual way to meet it: inside a tomogram a subtomo id names one row (a row repeated verbatim is
+allowed; the same id in DIFFERENT tomograms is allowed) -/
+def UniqueIdsWithinTomograms (l : Motl α) : Prop :=
+  ∀ p ∈ l, ∀ p' ∈ l, p'.tomo_id = p.tomo_id → p'.subtomo_id = p.subtomo_id → p' = p
+
+theorem maskWellFormed_of_unique (tr : α → Int) (tm : List (α × Mask)) (l : Motl α)
+    (h : UniqueIdsWithinTomograms l) : MaskWellFormed tr tm l := by
+  intro p hp p' hp' ht hi hz
+  rw [← h p hp p' hp' ht hi]; exact hz
+
+theorem unique_of_nodup_keys (l : Motl α) (h : (l.map (fun p => (p.tomo_id, p.subtomo_id))).Nodup) :
+    UniqueIdsWithinTomograms l := by
+  intro p hp p' hp' ht hi
+  exact eq_of_nodup_map h hp' hp (by simp [ht, hi])
+
+/-- **Cleaning by a tomogram mask removes exactly the particles inside the mask volume that sit on zero
+voxels and keeps all others — if and only if the list is `MaskWellFormed`.** So the hypothesis is not only
+sufficient but exactly what is needed: for every tomogram list, mask shape and content, truncation `tr`. -/
+theorem cleanMask_spec_iff (tr : α → Int) (tomos : List α) (arg : MaskArg) (l out : Motl α) (tm : List (α × Mask))
+    (hp : pairMasks tomos arg = .ok tm) (h : cleanMask tr tomos arg l = .ok out) :
+    KeepsExactly (fun p => ¬ OnZeroVoxel tr tm p) l out ↔ MaskWellFormed tr tm l := by
+  unfold cleanMask at h
+  rw [cleanMaskWith_eq_filter _ tr tomos arg l tm hp] at h
+  injection h with h
+  constructor
+  · intro hk p hpl p' hpl' ht hi hz
+    by_contra hn
+    have hin : p ∈ out := (hk.mem_iff p).2 ⟨hpl, hn⟩
+    rw [← h, List.mem_filter, maskKeep_doc_iff] at hin
+    exact hin.2 ⟨p', hpl', ht, hi, hz⟩
+  · intro hwf
+    refine ⟨_, h.symm, fun p hpl => ?_⟩
+    rw [maskKeep_doc_iff]
+    constructor
+    · intro hn hz; exact hn ⟨p, hpl, rfl, rfl, hz⟩
+    · rintro hn ⟨p', hpl', ht, hi, hz⟩; exact hn (hwf p hpl p' hpl' ht hi hz)
+
+/-- **Cleaning by a tomogram mask removes exactly the particles inside the mask volume that sit on zero
+voxels and keeps all others** — for every list in which a subtomo id is not repeated INSIDE a tomogram
+(ids may repeat across tomograms since 0eff65b; `cleanMask_needs_unique_ids_within_tomogram` shows that the
+remaining hypothesis cannot be dropped), every tomogram list, every mask shape and content, any truncation. -/
+theorem cleanMask_spec (tr : α → Int) (tomos : List α) (arg : MaskArg) (l out : Motl α)
+    (hid : UniqueIdsWithinTomograms l) (h : cleanMask tr tomos arg l = .ok out) :
+    ∃ tm, pairMasks tomos arg = .ok tm ∧ KeepsExactly (fun p => ¬ OnZeroVoxel tr tm p) l out := by
+  cases hp : pairMasks tomos arg with
+  | error e => unfold cleanMask cleanMaskWith at h; rw [hp] at h; simp at h
+  | ok tm => exact ⟨tm, rfl, (cleanMask_spec_iff tr tomos arg l out tm hp h).2 (maskWellFormed_of_unique tr tm l hid)⟩
+
+/-- the same with the hypothesis as a list property: the (tomogram, subtomo id) pairs are distinct -/
+theorem cleanMask_spec_of_nodup_keys (tr : α → Int) (tomos : List α) (arg : MaskArg) (l out : Motl α)
+    (hid : (l.map (fun p => (p.tomo_id, p.subtomo_id))).Nodup) (h : cleanMask tr tomos arg l = .ok out) :
+    ∃ tm, pairMasks tomos arg = .ok tm ∧ KeepsExactly (fun p => ¬ OnZeroVoxel tr tm p) l out :=
+  cleanMask_spec tr tomos arg l out (unique_of_nodup_keys l hid) h
+
+/-- on a well-formed list the code computes the statement: same result, same refusals -/
+theorem cleanMask_eq_stmt (tr : α → Int) (tomos : List α) (arg : MaskArg) (l : Motl α)
+    (hwf : ∀ tm, pairMasks tomos arg = .ok tm → MaskWellFormed tr tm l) :
+    cleanMask tr tomos arg l = cleanMaskStmt tr tomos arg l := by
+  cases hp : pairMasks tomos arg with
+  | error e => unfold cleanMask cleanMaskWith cleanMaskStmt; rw [hp]
+  | ok tm =>
+    cases hc : cleanMask tr tomos arg l with
+    | error e => unfold cleanMask cleanMaskWith at hc; rw [hp] at hc; simp at hc
+    | ok out =>
+      cases hs : cleanMaskStmt tr tomos arg l with
+      | error e => unfold cleanMaskStmt at hs; rw [hp] at hs; simp at hs
+      | ok out' =>
+        obtain ⟨tm', hp', hk'⟩ := cleanMaskStmt_spec tr tomos arg l out' hs
+        rw [hp] at hp'; injection hp' with hp'; subst hp'
+        have hk := (cleanMask_spec_iff tr tomos arg l out tm hp hc).2 (hwf tm hp)
+        rw [hk.unique hk']
+
+/-! ### regression: the code up to commit 0eff65b removed by subtomo id on the WHOLE list -/
+
+/-- the loop-shaped model at scope `byId` is the former model: one filter by the ids collected over all
+listed tomograms -/
+theorem cleanMaskById_eq (tr : α → Int) (tomos : List α) (arg : MaskArg) (l : Motl α) (tm : List (α × Mask))
+    (hp : pairMasks tomos arg = .ok tm) :
+    cleanMaskById tr tomos arg l = .ok (l.filter (fun p => !(maskRemoveIds maskCfgDoc tr tm l).contains p.subtomo_id)) := by
+  unfold cleanMaskById
+  rw [cleanMaskWith_eq_filter _ tr tomos arg l tm hp]
+  congr 1
+  apply List.filter_congr
+  intro p _
+  rw [Bool.eq_iff_iff]
+  have hd : ∀ tmk, maskDrops maskCfgById tr l tmk p = (maskIdsOf maskCfgDoc tr l tmk).contains p.subtomo_id := fun _ => rfl
+  simp only [List.all_eq_true, Bool.not_eq_true', ← Bool.not_eq_true, hd, List.contains_iff_mem, maskRemoveIds,
+    List.mem_flatMap, not_exists, not_and]
+
+/-- the former `cleanMask_spec`: with removal by id, the statement needs ids that are unique in the WHOLE list -/
+theorem cleanMaskById_spec (tr : α → Int) (tomos : List α) (arg : MaskArg) (l out : Motl α)
+    (hid : (l.map (·.subtomo_id)).Nodup) (h : cleanMaskById tr tomos arg l = .ok out) :
+    ∃ tm, pairMasks tomos arg = .ok tm ∧ KeepsExactly (fun p => ¬ OnZeroVoxel tr tm p) l out := by
+  cases hp : pairMasks tomos arg with
+  | error e => unfold cleanMaskById cleanMaskWith at h; rw [hp] at h; simp at h
+  | ok tm =>
+    rw [cleanMaskById_eq tr tomos arg l tm hp] at h
     injection h with h
     refine ⟨tm, rfl, _, h.symm, ?_⟩
     intro p hpl
@@ -516,17 +872,15 @@ theorem cleanMask_spec (tr : α → Int) (tomos : List α) (arg : MaskArg) (l ou
       have : p' = p := eq_of_nodup_map hid hp' hpl hidp
       exact hn (this ▸ hz)
 
-/-- without the unique-id hypothesis the code still never removes a particle whose id differs from
-the ids of all particles on zero voxels, and never keeps a particle on a zero voxel -/
-theorem cleanMask_mem_iff (tr : α → Int) (tomos : List α) (arg : MaskArg) (l out : Motl α)
-    (h : cleanMask tr tomos arg l = .ok out) (p : Particle α) :
+/-- the former `cleanMask_mem_iff`: removal by id ignores the tomogram of the row that carries the id -/
+theorem cleanMaskById_mem_iff (tr : α → Int) (tomos : List α) (arg : MaskArg) (l out : Motl α)
+    (h : cleanMaskById tr tomos arg l = .ok out) (p : Particle α) :
     ∃ tm, pairMasks tomos arg = .ok tm ∧
       (p ∈ out ↔ p ∈ l ∧ ¬ ∃ p' ∈ l, p'.subtomo_id = p.subtomo_id ∧ OnZeroVoxel tr tm p') := by
-  unfold cleanMask cleanMaskWith at h
   cases hp : pairMasks tomos arg with
-  | error e => rw [hp] at h; simp at h
+  | error e => unfold cleanMaskById cleanMaskWith at h; rw [hp] at h; simp at h
   | ok tm =>
-    rw [hp] at h
+    rw [cleanMaskById_eq tr tomos arg l tm hp] at h
     injection h with h
     refine ⟨tm, rfl, ?_⟩
     rw [← h, List.mem_filter]
@@ -571,6 +925,41 @@ theorem truncRat_nonpos_spec (q : Rat) (h : q ≤ 0) : (truncRat q : Rat) - 1 < 
   push_cast at h1 h2
   constructor <;> linarith
 
+/-- **Convention: the voxel a particle sits on is the TRUNCATED complete position** (`get_coordinates().astype(int)`,
+truncation toward zero). For `q ≥ 0` that is `⌊q⌋`; every position in the open interval `(-1, 0)` counts as
+voxel `0` — so on the lower side "inside the mask volume" means `-1 < position`, not `0 ≤ position` —
+and positions `≤ -1` have a negative index (outside). This is the code's convention; the statement's
+"inside the mask volume" is read on this index (`InsideMask`), and RULE of the harness says so. -/
+theorem voxel_truncation_convention (q : Rat) :
+    (0 ≤ q → truncRat q = ⌊q⌋) ∧ (-1 < q → q < 0 → truncRat q = 0) ∧ (q ≤ -1 → truncRat q ≤ -1) := by
+  refine ⟨truncRat_of_nonneg q, ?_, ?_⟩
+  · intro h1 h2
+    obtain ⟨ha, hb⟩ := truncRat_nonpos_spec q (le_of_lt h2)
+    have h3 : (truncRat q : Rat) < 1 := by linarith
+    have h4 : (-1 : Rat) < (truncRat q : Rat) := by linarith
+    have h3' : truncRat q < 1 := by exact_mod_cast h3
+    have h4' : -1 < truncRat q := by exact_mod_cast h4
+    omega
+  · intro h1
+    obtain ⟨ha, _⟩ := truncRat_nonpos_spec q (by linarith)
+    have h3 : (truncRat q : Rat) < 0 := by linarith
+    have h3' : truncRat q < 0 := by exact_mod_cast h3
+    omega
+
+/-- the convention at work: a particle at x = -1/2 sits on voxel (0,1,1); if that voxel is zero it is removed,
+a particle at x = -1 is outside the volume and kept -/
+theorem mask_position_below_zero_counts_as_voxel_zero :
+    let m : Mask := { sx := 4, sy := 4, sz := 4, val := fun x y z => !(x == 0 && y == 1 && z == 1) }
+    let p (x : Rat) : Particle Rat := Particle.ofFn (fun f => match f with
+      | .x => x | .y => 1 | .z => 1 | .tomo_id => 1 | .subtomo_id => 1 | _ => 0)
+    onZeroVoxel truncRat [((1 : Rat), m)] (p (-1/2)) = true ∧ onZeroVoxel truncRat [((1 : Rat), m)] (p (-1)) = false := by
+  decide +kernel
+
+/-- `cryomap.binarize` at the documented operator and threshold: non-zero iff `value > 1/2` -/
+theorem binarize_doc_iff (v : Rat) : binarizeWith binarizeCfgDoc v = true ↔ (1 / 2 : Rat) < v := by
+  have h : mkRat 1 2 = (1 / 2 : Rat) := by norm_num [Rat.mkRat_eq_div]
+  simp [binarizeWith, binarizeCfgDoc, Cmp.eval, h]
+
 /-! ### witnesses about the mask filter (concrete, `decide`) -/
 
 /-- 4×4×4 mask with the single zero voxel (1,1,1) -/
@@ -580,17 +969,36 @@ def wP (tomo id x : Int) : Particle Int :=
   Particle.ofFn (fun f => match f with
     | .x => x | .y => 1 | .z => 1 | .tomo_id => tomo | .subtomo_id => id | _ => 0)
 
-/-- the hypothesis of `cleanMask_spec` is necessary: with subtomo id 1 used in two tomograms, the
-particle of tomogram 2 (all-ones mask) is removed together with the one of tomogram 1 -/
+/-- **Regression witness of the defect repaired by 0eff65b.** Subtomo id 1 is used in two tomograms: the code
+that removed by id on the whole list (`cleanMaskById`) loses the particle of tomogram 2 (all-ones mask)
+together with the one of tomogram 1; today's code keeps it, as the statement demands. -/
 theorem cleanMask_needs_unique_ids :
-    (cleanMask id [1, 2] (.perTomo [wMask, wOnes]) [wP 1 1 1, wP 2 1 1]).toOption = some [] ∧
-    ¬ OnZeroVoxel id [((1 : Int), wMask), (2, wOnes)] (wP 2 1 1) := by
-  refine ⟨by decide, ?_⟩
+    (cleanMaskById id [1, 2] (.perTomo [wMask, wOnes]) [wP 1 1 1, wP 2 1 1]).toOption = some [] ∧
+    ¬ OnZeroVoxel id [((1 : Int), wMask), (2, wOnes)] (wP 2 1 1) ∧
+    (cleanMask id [1, 2] (.perTomo [wMask, wOnes]) [wP 1 1 1, wP 2 1 1]).toOption = some [wP 2 1 1] ∧
+    (cleanMaskStmt id [1, 2] (.perTomo [wMask, wOnes]) [wP 1 1 1, wP 2 1 1]).toOption = some [wP 2 1 1] := by
+  refine ⟨by decide, ?_, by decide, by decide⟩
   rintro ⟨tmk, htm, ht, _, hv⟩
   simp only [List.mem_cons, List.not_mem_nil, or_false] at htm
   rcases htm with rfl | rfl
   · revert ht; decide
   · revert hv; decide
+
+/-- **The remaining hypothesis of `cleanMask_spec` is necessary.** Two particles of ONE tomogram carry
+subtomo id 1, the first on the zero voxel, the second on a non-zero voxel: the code removes both, the
+statement keeps the second; the list is not `MaskWellFormed`, and it is not `UniqueIdsWithinTomograms`. -/
+theorem cleanMask_needs_unique_ids_within_tomogram :
+    (cleanMask id [1] (.perTomo [wMask]) [wP 1 1 1, wP 1 1 2]).toOption = some [] ∧
+    (cleanMaskStmt id [1] (.perTomo [wMask]) [wP 1 1 1, wP 1 1 2]).toOption = some [wP 1 1 2] ∧
+    ¬ OnZeroVoxel id [((1 : Int), wMask)] (wP 1 1 2) ∧
+    ¬ MaskWellFormed id [((1 : Int), wMask)] [wP 1 1 1, wP 1 1 2] := by
+  have hnz : ¬ OnZeroVoxel id [((1 : Int), wMask)] (wP 1 1 2) := by
+    rw [← onZeroVoxel_iff]; decide
+  refine ⟨by decide, by decide, hnz, ?_⟩
+  intro hwf
+  apply hnz
+  apply hwf (wP 1 1 2) (by simp) (wP 1 1 1) (by simp) rfl rfl
+  rw [← onZeroVoxel_iff]; decide
 
 /-- **Regression witness of defect D11 (repaired by a0240b0).** One particle beyond the mask volume in
 front of a particle on the zero voxel: the old code removes the WRONG particle (index into the
@@ -617,6 +1025,14 @@ example : trim (⟨3, 1, 1⟩ : V3 Int) ⟨7, 10, 10⟩ [wP 1 1 2, wP 1 2 3, wP 
 /-- `cleanPoints_perm`: two tomograms, a tie on the ball surface is removed, the foreign point removes nothing -/
 example : cleanPoints (5 : Int) [⟨1, ⟨4, 5, 1⟩⟩, ⟨7, ⟨0, 1, 1⟩⟩] [wP 2 1 0, wP 1 2 1, wP 2 3 5, wP 1 4 9]
     = [wP 2 1 0, wP 2 3 5, wP 1 4 9] := by decide
+/-- `cleanMask_spec`: the SAME subtomo ids in two tomograms (each id once per tomogram): only the row of the masked
+tomogram on the zero voxel goes -/
+example : (cleanMask id [1] (.single wMask) [wP 1 1 1, wP 2 1 1, wP 1 2 2, wP 2 2 2]).toOption
+    = some [wP 2 1 1, wP 1 2 2, wP 2 2 2] ∧
+    ([wP 1 1 1, wP 2 1 1, wP 1 2 2, wP 2 2 2].map (fun p => (p.tomo_id, p.subtomo_id))).Nodup := by decide
+/-- `cleanMask_spec_iff`: an id repeated INSIDE a tomogram on a well-formed list (both rows on the zero voxel) -/
+example : (cleanMask id [1] (.single wMask) [wP 1 1 1, wP 1 1 1, wP 1 2 2]).toOption = some [wP 1 2 2] ∧
+    (cleanMaskStmt id [1] (.single wMask) [wP 1 1 1, wP 1 1 1, wP 1 2 2]).toOption = some [wP 1 2 2] := by decide
 /-- `cleanMask_spec`: unique ids, a listed and an unlisted tomogram, inside/outside/zero/non-zero voxels -/
 example : (cleanMask id [1] (.single wMask) [wP 1 1 1, wP 1 2 2, wP 1 3 (-1), wP 1 4 4, wP 2 5 1]).toOption
     = some [wP 1 2 2, wP 1 3 (-1), wP 1 4 4, wP 2 5 1] ∧
